@@ -35,6 +35,10 @@ def roles(ctx):
         raise FailClosed("shared state enum not found")
     for v in st["variants"]:
         tys = [f["ty"] for f in v["fields"]]
+        for f in v["fields"]:
+            sub = ctx.facts.adts.get(f["ty"].split("<")[0])
+            if sub and sub.get("local") and sub["kind"] == "struct":
+                tys += [g["ty"] for g in sub["variants"][0]["fields"]]
         if any("VecDeque" in t for t in tys):
             R["live"] = v["name"]
             for f in v["fields"]:
@@ -44,6 +48,15 @@ def roles(ctx):
                     R["bytes_f"] = f["name"]
                 elif boolish(ctx, f["ty"]):
                     R["dropped_f"] = f["name"]
+                else:
+                    # the queue and its byte counter grouped in a private record: the roles are field *paths*
+                    sub = ctx.facts.adts.get(f["ty"].split("<")[0])
+                    if sub and sub.get("local") and sub["kind"] == "struct":
+                        for g in sub["variants"][0]["fields"]:
+                            if "VecDeque" in g["ty"]:
+                                R["queue_f"] = (f["name"], g["name"])
+                            elif g["ty"] == "usize":
+                                R["bytes_f"] = (f["name"], g["name"])
         elif len(v["fields"]) == 1:
             R["err"] = v["name"]
         elif not v["fields"]:
@@ -103,8 +116,38 @@ def entry_state(R, root):
     return ("field", ("deref", root[1]), R["state_f"])
 
 
+def _path(f):
+    return f if isinstance(f, tuple) else (f,)
+
+
+def aget(v, f):
+    """agg_get along a field path (a role may sit one record level deep)"""
+    for c in _path(f):
+        if is_agg(v):
+            v = agg_get(v, c)
+            continue
+        # an in-place update of a nested record: the last write to that field, else the field of what was updated
+        u = v
+        while isinstance(u, tuple) and u and u[0] == "upd" and u[2] != ("f", c):
+            u = u[1]
+        v = u[3] if isinstance(u, tuple) and u and u[0] == "upd" else ("field", u, c)
+    return v
+
+
+def fproj(f):
+    return tuple(("f", c) for c in _path(f))
+
+
+def last_name(f):
+    return _path(f)[-1]
+
+
 def live_field(R, st, f):
-    return ("payload", st, R["live"], f)
+    p = _path(f)
+    t = ("payload", st, R["live"], p[0])
+    for c in p[1:]:
+        t = ("field", t, c)
+    return t
 
 
 def final_state(ctx, R, o, root):
@@ -236,7 +279,7 @@ def reader_pending(ctx, rule1, rule3):
             else:
                 if agg_get(fs, R["dropped_f"]) != live_field(R, r["st0"], R["dropped_f"]) and agg_get(fs, R["dropped_f"]) != const(0):
                     bad.append("producer-finished flag not restored")
-                if agg_get(fs, R["bytes_f"]) not in (live_field(R, r["st0"], R["bytes_f"]), const(0)):
+                if aget(fs, R["bytes_f"]) not in (live_field(R, r["st0"], R["bytes_f"]), const(0)):
                     bad.append("queued-bytes counter not restored")
             fw = r["final_waker"]
             cur = current_waker_term(r["o"])
@@ -300,7 +343,7 @@ def reader_consume(ctx, rule):
                 bad.append("the frame is %s, not D::from(<popped chunk>)" % short(p, 80))
             fs = r["final_state"]
             if is_agg(fs) and fs[3] == R["live"]:
-                b2 = agg_get(fs, R["bytes_f"])
+                b2 = aget(fs, R["bytes_f"])
                 want = mk_binop("Sub", live_field(R, r["st0"], R["bytes_f"]), len_term(c))
                 if b2 != want:
                     bad.append("queued-bytes counter becomes %s, expected bytes - len(chunk)" % short(b2, 80))
@@ -545,7 +588,7 @@ def publish_rules(ctx, r3, r6, r7):
                 if v != buf0:
                     ctx.violation(r3, "%s|%s|value" % (r3, label), "%s: the queued chunk is %s, not the writer's buffer" % (label, short(v, 60)), where=where(e))
                 else:
-                    b2 = final_read(ctx, o, pi["root"], (("f", R["state_f"]), ("as", R["live"]), ("f", R["bytes_f"])))
+                    b2 = final_read(ctx, o, pi["root"], (("f", R["state_f"]), ("as", R["live"])) + fproj(R["bytes_f"]))
                     want = mk_binop("Add", live_field(R, pi["st0"], R["bytes_f"]), len_term(buf0))
                     if b2 != want:
                         ctx.violation(r3, "%s|%s|counter" % (r3, label), "%s: queued-bytes counter becomes %s, expected bytes + len(chunk)" % (label, short(b2, 80)), where=where(e))
@@ -649,7 +692,7 @@ def critical_sections_panic_free(ctx, rule):
             if (s.fn, s.bb) not in inside:
                 continue
             n += 1
-            counter = s.kind == "assert" and s.op in ("Overflow(Sub)", "Overflow(Add)") and all(R["bytes_f"] in f[1] for f in s.failed)
+            counter = s.kind == "assert" and s.op in ("Overflow(Sub)", "Overflow(Add)") and all(last_name(R["bytes_f"]) in f[1] for f in s.failed)
             dbg = s.kind == "panic-call" and "assert_failed" in s.op
             if s.failed and not (counter or dbg):
                 ctx.violation(rule, "%s|%s" % (rule, key), "a panic site inside a critical section is not discharged (it would poison the shared mutex): %s" % s.failed[0][0], where=F.loc(s.span))
@@ -779,7 +822,7 @@ def write_rules(ctx, r1, r2):
         outs = ctx.px(R["write"], inline=lambda c, d: True, setup=setup, key="w")
         sites = CEN.census(ctx, outs, typelevel=lock_expect_tl)
         for key, s in sorted(sites.items()):
-            if s.failed and s.kind == "assert" and s.op == "Overflow(Add)" and all(("." + R["bytes_f"]) in f[1] for f in s.failed):
+            if s.failed and s.kind == "assert" and s.op == "Overflow(Add)" and all(("." + last_name(R["bytes_f"])) in f[1] for f in s.failed):
                 ctx.ok(r2, "write (%s): %s -- queued-bytes counter: the sum of the lengths of distinct live Vec<u8> allocations cannot exceed the address space" % (label, key), nontrivial=False)
             elif s.failed:
                 ctx.violation(r2, "%s|%s|%s" % (r2, label, key), "write (%s): %s (%s)" % (label, s.failed[0][0], s.failed[0][1][:100]), where=F.loc(s.span))
@@ -927,7 +970,8 @@ def shared_initial_state(ctx, rule):
     ctor_sites = [(b, i, st) for b, i, st in sites if " as " not in b["name"] and "poll_next" not in b["name"]]
     n = 0
     for b, i, st in aggregates(ctx.facts, R["shared"]):
-        outs = ctx.px(b["name"])
+        from .common import helper_inline as _hi
+        outs = ctx.px(b["name"], inline=_hi(ctx, own=(R["shared"], R["state_ty"])), key="helpers")
         for o in outs:
             if o.kind != "return":
                 continue
@@ -941,11 +985,11 @@ def shared_initial_state(ctx, rule):
                     if not (is_agg(stv) and stv[3] == R["live"]):
                         bad.append("initial state is %s" % short(stv, 40))
                     else:
-                        if agg_get(stv, R["bytes_f"]) != const(0):
-                            bad.append("initial queued-bytes counter is %s" % short(agg_get(stv, R["bytes_f"]), 30))
+                        if aget(stv, R["bytes_f"]) != const(0):
+                            bad.append("initial queued-bytes counter is %s" % short(aget(stv, R["bytes_f"]), 30))
                         if agg_get(stv, R["dropped_f"]) != const(0):
                             bad.append("producer-finished flag initially set")
-                        q = agg_get(stv, R["queue_f"])
+                        q = aget(stv, R["queue_f"])
                         if not (isinstance(q, tuple) and q[0] == "call" and q[1].endswith("VecDeque::<T>::new")):
                             bad.append("initial queue is %s, not VecDeque::new()" % short(q, 40))
                     if not (is_agg(wk) and wk[3] == "None"):
